@@ -6,7 +6,7 @@ CONSTANTS
   Vals <- MCVals
   SliceArgs <- SlicesG
   MaxSize = 5
-  MaxDepth = 7
+  MaxDepth = 6
   Dev = "none"
 VIEW MCView
 CONSTRAINT Depth
